@@ -29,6 +29,18 @@ def atom_coords(seed: int, n: int, vel: bool):
         for i in range(n):
             if r2.random() < 0.12:
                 vels[i] = [0.0, 0.0, 0.0]
+    if seed % 3 == 1:
+        # values that FILL their field (`%8.3f` of a coordinate <= -100 or >= 1000 nm, `%8.4f` of a velocity <= -10 or
+        # >= 100): legal, and the number then touches the previous column with no blank in between — only a reader
+        # that cuts the record at fixed columns gets them (seed C12-15: `atomline[20:].split()`)
+        r3 = random.Random(f"full-{seed}")
+        for i in range(n):
+            if r3.random() < 0.3:
+                for j in range(3):
+                    if r3.random() < 0.5:
+                        pos[i][j] = r3.choice([r3.randint(-999999, -100000), r3.randint(1000000, 9999999)]) / 1000.0
+                    if vels and r3.random() < 0.3:
+                        vels[i][j] = r3.choice([r3.randint(-999999, -100000), r3.randint(1000000, 9999999)]) / 10000.0
     return pos, vels
 
 
